@@ -242,6 +242,35 @@ def w_tones(ctx, rng, i):
     ctx.case(("tone", which, order, round(frac, 2), round(ftone, 2)))
 
 
+def w_fs_change(ctx, rng, i):
+    """the same cutoff in Hz and the same order at two sampling rates in one process: the -6 dB point must follow the rate in force."""
+    order = int(rng.integers(1, 9))
+    which = "lpf" if i % 2 == 0 else "bpf"
+    cut = float(rng.choice([1e9, 2.5e9, 4e9]))
+    rates = [f for f in (1.6e10, 3.2e10, 8e10, 1.6e11) if 0.011 <= cut / f <= 0.44]
+    rng.shuffle(rates)
+    N = 8192
+    n = np.arange(N)
+    mid = slice(N // 4, 3 * N // 4)
+    atts = []
+    for fs in rates[:3]:
+        with core.quiet():
+            T.gv(sps=8, fs=fs)
+            frac = cut / fs
+            if which == "lpf":
+                tone = np.cos(2 * np.pi * frac * n)
+                y = D.LPF(T.electrical_signal(tone), cut, order).signal
+                atts.append((fs, 10 * np.log10(np.mean(y[mid] ** 2) / np.mean(tone[mid] ** 2))))
+            else:
+                tone = np.exp(2j * np.pi * frac * n)
+                y = D.BPF(T.optical_signal(tone), 2 * cut, order).signal
+                atts.append((fs, 10 * np.log10(np.mean(np.abs(y[mid]) ** 2))))
+    ctx.describe(which=which, order=order, cutoff_Hz=cut, rates=[a[0] for a in atts])
+    for fs, att in atts:
+        ctx.check("cutoff", abs(att + 6.0206) <= 0.05, f"{which} order {order}, cutoff {cut:.3g} Hz: attenuation at the cutoff is {-att:.3f} dB at fs={fs:.3g} (sampling rate changed within the process: {[a[0] for a in atts]})")
+    ctx.case(("fschg", which, order, cut, tuple(a[0] for a in atts)), sample=dict(filter=which, order=order, cutoff_Hz=cut, attenuation_dB=[(a[0], float(a[1])) for a in atts]) if i < 2 else None)
+
+
 def w_errors(ctx, rng, i):
     with core.quiet():
         ctx.raises("errors", TypeError, D.BPF, T.electrical_signal(np.ones(40)), 1e9)
@@ -253,6 +282,7 @@ WORKLOADS = [
     Workload("basic", w_basic, 1200, 80000),
     Workload("response", w_response, 200, 20000),
     Workload("tones", w_tones, 300, 30000),
+    Workload("fs_change", w_fs_change, 60, 3000),
     Workload("errors", w_errors, 2, 10),
 ]
 
